@@ -626,7 +626,7 @@ def json_extra_sweep(rng, fails, pairs):
 
 GARBAGE = [b'', b'{', b'not json', b'[1, 2]', b'5', b'"x"', b'{"a": 1}', b'{"a": {"b": 1}}', b'{"a": {"b": {"c": 1}}}',
            b'{"g": {"n": {"__class__": "LogTocElement"}}}', b'{"g": {"n": {"__class__": "NoSuchClass", "ident": 0}}}',
-           b'\xff\xfe\x00', b'null', b'{"g": [1]}']
+           b'\xff\xfe\x00', b'null', b'{"g": [1]}', b'{}', b'[]', b'{ }']
 
 
 def fetch_through_cache(cls, items, crc, cache, ver=7, holder=None, probes=()):
@@ -913,6 +913,132 @@ def run_collision(log_items, par_items, crc_log, crc_par, sessions=2, with_rw=Tr
         shutil.rmtree(d, ignore_errors=True)
 
 
+def run_collision_sessions(case):
+    """real Log + Param + TocCache on the fake cf, connected as Crazyflie does (log TOC, then param TOC), one session
+    per entry of case['sessions'] (each may be another device: its own tables and checksums) over the same rw directory
+    and an optional ro directory; files may be planted beforehand (`pre_rw` / `pre_ro`: {crc: text}).  After every session
+    both tables must be exactly that device's tables."""
+    import cflib.crazyflie.param as pm
+    from cflib.crazyflie.log import Log
+    from cflib.crazyflie.toccache import TocCache
+    root = mkdtemp()
+    try:
+        rw, ro = os.path.join(root, 'rw'), os.path.join(root, 'ro')
+        os.makedirs(rw)
+        os.makedirs(ro)
+        for d, pre in ((rw, case.get('pre_rw', {})), (ro, case.get('pre_ro', {}))):
+            for c, text in pre.items():
+                with open(os.path.join(d, '%08X.json' % int(c)), 'w') as f:
+                    f.write(text)
+        for sn, sess in enumerate(case['sessions']):
+            li = [c03.ditem_unjson(x) for x in sess['log']]
+            pi = [c03.ditem_unjson(x) for x in sess['param']]
+            tr = []
+            cf = fk.FakeCF(sess.get('ver', 7), tr)
+            v2 = sess.get('ver', 7) >= 4
+            cache = TocCache(ro_cache=ro if case.get('use_ro', True) else None, rw_cache=rw if case.get('use_rw', True) else None)
+            log = Log(cf)
+            par = pm.Param.__new__(pm.Param)
+            par.toc = pm.Toc()
+            par.cf = cf
+            par._useV2 = v2
+            ldev = fk.PyDev(c03.raw_items('log', li), sess['crc_log'])
+            pdev = fk.PyDev(c03.raw_items('param', pi), sess['crc_param'])
+            done = []
+            order = sess.get('order', 'log_first')
+
+            def fetch_log():
+                log.refresh_toc(lambda: done.append('log'), cache)
+                cf.deliver(5, 1, bytes([5, 0, 0]))
+                for _ in range(len(li) + 3):
+                    reqs = cf.sent(5, 0)
+                    if 'log' in done or not reqs:
+                        break
+                    r = ldev.reply(v2, reqs[-1][3])
+                    if r is None:
+                        break
+                    cf.deliver(5, 0, r)
+
+            def fetch_param():
+                par.refresh_toc(lambda: done.append('param'), cache)
+                for _ in range(len(pi) + 3):
+                    reqs = cf.sent(2, 0)
+                    if 'param' in done or not reqs:
+                        break
+                    r = pdev.reply(v2, reqs[-1][3])
+                    if r is None:
+                        break
+                    cf.deliver(2, 0, r)
+            for step in ((fetch_log, fetch_param) if order == 'log_first' else (fetch_param, fetch_log)):
+                step()
+            exc = [t for t in tr if t[0] == 'raised']
+            if exc:
+                return 'session %d: callback raised %r' % (sn, exc[0][1:])
+            if sorted(done) != ['log', 'param']:
+                return 'session %d: completions %r' % (sn, done)
+            nreq_l, nreq_p = len(cf.sent(5, 0)), len(cf.sent(2, 0))
+            bad = c03.check_table('log', li, log.toc)
+            if bad:
+                return 'session %d: log table (%d requests; from the cache if 1): %s' % (sn, nreq_l, bad)
+            bad = c03.check_table('param', pi, par.toc)
+            if bad:
+                return 'session %d: parameter table (%d requests; from the cache if 1): %s' % (sn, nreq_p, bad)
+        return None
+    finally:
+        shutil.rmtree(root, ignore_errors=True)
+
+
+def collision_empty_case(case):
+    bad = run_collision_sessions(case)
+    if bad:
+        return {'class': 'empty_or_foreign_cached_table_taken_for_the_other_table', 'case': case, 'observed': bad, 'detail': bad,
+                'expected': 'a table taken from the cache equals the device table of that class; otherwise it is downloaded'}
+    return None
+
+
+def gen_collision_empty_cases(rng, count):
+    """checksum collisions with EMPTY tables on either side, same connection and across sessions/devices, rw and ro
+    directories, `{}` / `[]` / `null` files left behind"""
+    out = []
+    shapes = [('E', 'N'), ('N', 'E'), ('E', 'E'), ('N', 'N')]
+
+    def tabs(shape):
+        li = c03.gen_items(rng, 'log', 0 if shape[0] == 'E' else rng.choice([1, 2, 3]), True)
+        pi = c03.gen_items(rng, 'param', 0 if shape[1] == 'E' else rng.choice([1, 2, 3]), True)
+        for it in pi:
+            it['ext'] = False
+        return [c03.ditem_json(i) for i in li], [c03.ditem_json(i) for i in pi]
+    for k in range(count):
+        crc = rng.getrandbits(32)
+        pool = [crc, crc, crc ^ (1 << rng.randrange(32))]
+        kind = ['same_connection', 'cross_device', 'planted_rw', 'planted_ro', 'cross_device_ro'][k % 5]
+        sessions = []
+        case = {'kind': 'collision_empty', 'use_ro': True, 'use_rw': True, 'pre_rw': {}, 'pre_ro': {}}
+        nsess = 2 if kind in ('same_connection', 'planted_rw', 'planted_ro') else 3
+        # a checksum identifies ONE table per class (collisions inside a class are outside the property): remember
+        # which table of each class a checksum stands for; collisions happen only ACROSS the two classes
+        known = {'log': {}, 'param': {}}
+        for sn in range(nsess):
+            shape = shapes[(k // 5 + sn) % 4] if kind.startswith('cross') else shapes[(k // 5) % 4]
+            if kind.startswith('cross') or sn == 0:
+                li, pi = tabs(shape)
+                cl, cp = rng.choice(pool), rng.choice(pool)
+                li = known['log'].setdefault(cl, li)
+                pi = known['param'].setdefault(cp, pi)
+            else:
+                li, pi, cl, cp = sessions[0]['log'], sessions[0]['param'], sessions[0]['crc_log'], sessions[0]['crc_param']
+            sessions.append({'log': li, 'param': pi, 'crc_log': cl, 'crc_param': cp,
+                             'ver': rng.choice([3, 7]), 'order': 'log_first' if (k + sn) % 4 else 'param_first'})
+        if kind == 'planted_rw':
+            case['pre_rw'] = {str(crc): rng.choice(['{}', '[]', 'null', '{ }', '{}\n'])}
+        if kind in ('planted_ro', 'cross_device_ro'):
+            case['pre_ro'] = {str(crc): rng.choice(['{}', '[]', 'null'])}
+            case['use_rw'] = k % 2 == 0
+        case['sessions'] = sessions
+        out.append(case)
+    return out
+
+
 def oracle_collision(case):
     li = [c03.ditem_unjson(d) for d in case['log']]
     pi = [c03.ditem_unjson(d) for d in case['param']]
@@ -999,6 +1125,9 @@ def _run_case(case, rng):
     if case.get('kind') == 'collision':
         f = oracle_collision(case)
         return [f] if f else []
+    if case.get('kind') == 'collision_empty':
+        f = collision_empty_case(case)
+        return [f] if f else []
     if case.get('kind') == 'hit_lookup':
         f = hit_lookup_case(case)
         return [f] if f else []
@@ -1047,6 +1176,11 @@ def oracle(ctx, deep=False):
                 'crc_log': crc, 'crc_param': crc if same else crc ^ (1 << rng.randrange(32)), 'rw': k % 5 != 4}
         n += 1
         f = oracle_collision(case)
+        if f:
+            fails.append(f)
+    for case in gen_collision_empty_cases(rng, ctx.scale(40, 300) * (2 if deep else 1)):
+        n += 1
+        f = collision_empty_case(case)
         if f:
             fails.append(f)
     n += oracle_garbage(rng, fails)
